@@ -85,6 +85,11 @@ pub(crate) fn policy_cost_update(key: u64, prev: i64, cost: i64) {
     obs::emit(Obs::CostUpdate { key, prev, cost });
 }
 
+/// A read or write of the capacity cell is a scheduling point in the simulator.
+pub(crate) fn capacity_access() {
+    stretto_sim_rt::rt::sched_point_throttled(0xca9a_c17);
+}
+
 pub(crate) fn policy_cleared() {
     if !obs::enabled() {
         return;
